@@ -5,6 +5,7 @@ import Reduino.Lang.InF
 import Reduino.Lang.Promote
 import Reduino.Lang.Libs
 import Reduino.Lang.Assemble
+import Reduino.Lang.Tr2
 /- `lang|tr|<sexpr>`, `lang|pyrun|<sexpr>|N|fuel`, `lang|crun|<sexpr>|N|fuel` -/
 namespace Reduino.Driver
 open Reduino.Lang
@@ -139,6 +140,22 @@ def handleLang (fields : List String) : Option String :=
     | none => some "bad-prog"
     | some p =>
       match tr p with
+      | .ok c => some (showRun (C.run c n.toNat! fuel.toNat!))
+      | .error .breakInMainLoop => some "reject break-in-main-loop"
+      | .error .outsideFragment => some "outside-fragment"
+  | ["lang", "tr2", src] =>
+    match parseProg src with
+    | none => some "bad-prog"
+    | some p =>
+      match tr2 p with
+      | .ok c => some ("ok " ++ hexOf ("\n".intercalate c.lines) ++ (if InF2 p then " in" else " out"))
+      | .error .breakInMainLoop => some "reject break-in-main-loop"
+      | .error .outsideFragment => some "outside-fragment"
+  | ["lang", "crun2", src, n, fuel] =>
+    match parseProg src with
+    | none => some "bad-prog"
+    | some p =>
+      match tr2 p with
       | .ok c => some (showRun (C.run c n.toNat! fuel.toNat!))
       | .error .breakInMainLoop => some "reject break-in-main-loop"
       | .error .outsideFragment => some "outside-fragment"
